@@ -55,6 +55,27 @@ def run_check(pid, letter, tier, cases=None):
         rc2, st = sh("git -C /repo status --porcelain --untracked-files=no")
         assert not st.strip(), "repo not clean after undo: " + st
 
+def run_check_scratch(pid, letter, tier):
+    """same as run_check but in a scratch worktree selected with VF_SRC, so that /repo itself stays untouched
+    (used while other checks are running against /repo)"""
+    wt = f"/tmp/seedrun_{pid}_{letter}"
+    sh(f"git -C /repo worktree remove --force {wt}")
+    sh(f"git -C /repo worktree add -q --detach {wt} HEAD")
+    try:
+        sh(f"cp /repo/src/pendulum/_pendulum.cpython-312-x86_64-linux-gnu.so {wt}/src/pendulum/")
+        patch = os.path.join(CAND, pid, f"{letter}.diff")
+        rc, out = sh(f"git apply {patch} || git apply --3way {patch}", cwd=wt)
+        if rc:
+            return dict(applied=False, why=out[-300:])
+        t = time.time()
+        rc, out = sh(f"./check {pid} --tier {tier} --no-evidence", cwd=ROOT, env=dict(os.environ, VF_SRC=f"{wt}/src"), timeout=5400)
+        viol = [l for l in out.splitlines() if l.startswith("VIOLATION") or l.startswith("  case=")]
+        return dict(applied=True, exit=rc, wall_s=round(time.time() - t, 1), caught=(rc == 1), how="scratch worktree via VF_SRC",
+                    lines=[v[:400] for v in viol[:6]], tail=out[-500:] if rc not in (0, 1) else "")
+    finally:
+        sh(f"git -C /repo worktree remove --force {wt}")
+
+
 def main():
     args = [a for a in sys.argv[1:] if not a.startswith("--")]
     confirm_only = "--confirm-only" in sys.argv
@@ -73,7 +94,7 @@ def main():
             shutil.copy(os.path.join(CAND, pid, f"{letter}.diff"), os.path.join(dst, "patch.diff"))
             shutil.copy(os.path.join(CAND, pid, f"{letter}_demo.py"), os.path.join(dst, "demo.py"))
             if not confirm_only:
-                r = run_check(pid, letter, tier)
+                r = run_check_scratch(pid, letter, tier) if "--scratch" in sys.argv else run_check(pid, letter, tier)
                 print(sid, "check:", r.get("exit"), r.get("caught"), r.get("wall_s"), flush=True)
                 meta["check"] = r
             notes = os.path.join(CAND, pid, "notes.md")
